@@ -104,10 +104,67 @@ Definition step_P (strict : bool) (blocked : list string) (prev : snap) (o : op)
   (forall d v', In (d, v') (sn_supply cur) ->
      forall v, lookup d (sn_supply prev) = Some v -> delta_bal d (sn_bal prev) (sn_bal cur) = v' - v).
 
-Fixpoint P (strict : bool) (blocked : list string) (prev : snap) (t : list (op * bool * snap)) : Prop :=
+(** Transactions of several messages.  [first_admin_op d tx]: the first message of the tx that needs
+    (or establishes) authority over denom [d]. *)
+Definition needs_authority (o : op) : bool :=
+  match o with BurnNative _ _ _ _ => false | _ => true end.
+
+Fixpoint first_admin_op (d : string) (tx : list op) : option op :=
+  match tx with
+  | [] => None
+  | o :: r => if needs_authority o && String.eqb (op_denom o) d then Some o else first_admin_op d r
+  end.
+
+Definition moves_supply_of (strict : bool) (d : string) (o : op) : bool :=
+  match o with
+  | Mint _ d0 _ _ _ | Burn _ d0 _ _ _ => String.eqb d0 d
+  | BurnNative _ d0 _ _ => String.eqb d0 d && (negb strict || negb (validate_denom d))
+  | _ => false
+  end.
+
+Definition moves_admin_of (d : string) (o : op) : bool :=
+  match o with
+  | ChangeAdmin _ d0 _ _ => String.eqb d0 d
+  | Create sender sub => String.eqb (tf_denom sender sub) d
+  | _ => false
+  end.
+
+(** what an ACCEPTED tx of several messages may do, judged against the snapshot before it: a supply
+    moves only if the tx carries a mint / burn of that denom, an admin only if it carries a hand-over /
+    creation of that denom, and for every tracked denom the FIRST message that needs authority over
+    it is signed by the admin on record before the tx (creation: no admin on record). *)
+Definition multi_ok_b (strict : bool) (prev : snap) (tx : list op) (cur : snap) : bool :=
+  forallb (fun e : string * Z => let '(d, v') := e in
+             match lookup d (sn_supply prev) with
+             | Some v => (v' =? v) || existsb (moves_supply_of strict d) tx
+             | None => false
+             end) (sn_supply cur) &&
+  forallb (fun e : string * option string => let '(d, a') := e in
+             match lookup d (sn_admin prev) with
+             | Some a =>
+                 (match a, a' with
+                  | None, None => true
+                  | Some x, Some y => String.eqb x y
+                  | _, _ => false
+                  end || existsb (moves_admin_of d) tx) &&
+                 match first_admin_op d tx with
+                 | Some (Create _ _) => match a with None => true | Some _ => false end
+                 | Some o => match a with Some x => String.eqb x (sender_of o) | None => false end
+                 | None => true
+                 end
+             | None => false
+             end) (sn_admin cur).
+
+(** one delivered tx *)
+Definition tx_P (strict : bool) (blocked : list string) (prev : snap) (tx : list op) (ok : bool) (cur : snap) : Prop :=
+  (ok = false -> cur = prev) /\
+  (forall o, tx = [o] -> step_P strict blocked prev o ok cur) /\
+  (ok = true -> multi_ok_b strict prev tx cur = true).
+
+Fixpoint P (strict : bool) (blocked : list string) (prev : snap) (t : list (list op * bool * snap)) : Prop :=
   match t with
   | [] => True
-  | (o, ok, cur) :: r => step_P strict blocked prev o ok cur /\ P strict blocked cur r
+  | (tx, ok, cur) :: r => tx_P strict blocked prev tx ok cur /\ P strict blocked cur r
   end.
 
 (* ------------------------------------------------------------------ boolean checker *)
@@ -227,10 +284,15 @@ Definition step_Pb (strict : bool) (blocked : list string) (prev : snap) (o : op
              | None => false
              end) (sn_supply cur).
 
-Fixpoint Pb (strict : bool) (blocked : list string) (prev : snap) (t : list (op * bool * snap)) : bool :=
+Definition tx_Pb (strict : bool) (blocked : list string) (prev : snap) (tx : list op) (ok : bool) (cur : snap) : bool :=
+  (ok || snap_eqb cur prev) &&
+  (match tx with [o] => step_Pb strict blocked prev o ok cur | _ => true end) &&
+  (negb ok || multi_ok_b strict prev tx cur).
+
+Fixpoint Pb (strict : bool) (blocked : list string) (prev : snap) (t : list (list op * bool * snap)) : bool :=
   match t with
   | [] => true
-  | (o, ok, cur) :: r => step_Pb strict blocked prev o ok cur && Pb strict blocked cur r
+  | (tx, ok, cur) :: r => tx_Pb strict blocked prev tx ok cur && Pb strict blocked cur r
   end.
 
 (* ------------------------------------------------------------------ soundness *)
@@ -350,8 +412,16 @@ Proof.
   - intros d v' Hin v Hl. specialize (H6 _ Hin). simpl in H6. rewrite Hl in H6. apply Z.eqb_eq in H6. exact H6.
 Qed.
 
+Lemma tx_Pb_sound strict blocked prev tx ok cur : tx_Pb strict blocked prev tx ok cur = true -> tx_P strict blocked prev tx ok cur.
+Proof.
+  unfold tx_Pb, tx_P. rewrite !andb_true_iff. intros [[H1 H2] H3]. split; [|split].
+  - intro Hk. subst ok. simpl in H1. apply snap_eqb_eq. exact H1.
+  - intros o Ho. subst tx. apply step_Pb_sound. exact H2.
+  - intro Hk. subst ok. exact H3.
+Qed.
+
 Lemma Pb_sound strict blocked : forall t prev, Pb strict blocked prev t = true -> P strict blocked prev t.
 Proof.
-  induction t as [|[[o ok] cur] r IH]; intros prev H; simpl in *; auto.
-  apply andb_true_iff in H as [H1 H2]. split; [apply step_Pb_sound; exact H1 | apply IH; exact H2].
+  induction t as [|[[tx ok] cur] r IH]; intros prev H; simpl in *; auto.
+  apply andb_true_iff in H as [H1 H2]. split; [apply tx_Pb_sound; exact H1 | apply IH; exact H2].
 Qed.
